@@ -20,7 +20,18 @@ type c08CancelKey struct{}
 type c08OutKey struct{}
 
 // c08PassPub is a publisher decorator that does nothing (its type name is not the name of the handler's publisher).
-type c08PassPub struct{ message.Publisher }
+// It looks at what passes: the outputs carry the handler's context values already when they reach the decorators.
+type c08PassPub struct {
+	message.Publisher
+	see func(msgs []*message.Message)
+}
+
+func (p c08PassPub) Publish(topic string, msgs ...*message.Message) error {
+	if p.see != nil {
+		p.see(msgs)
+	}
+	return p.Publisher.Publish(topic, msgs...)
+}
 
 type c08Handler struct {
 	Name   string
@@ -106,9 +117,11 @@ func c08Run(r *tr.Run, hs []c08Handler, rng *rand.Rand) {
 	subs := map[string]*scripted.Sub{"sA": scripted.NewSub("sA"), "sB": scripted.NewSub("sB")}
 	pubs := map[string]*scripted.Pub{"pA": scripted.NewPub("pA"), "pB": scripted.NewPub("pB")}
 	var mu sync.Mutex
+	decSeen := map[*message.Message][]string{}               // context values of an output as the publisher decorator saw them
 	var published []*message.Message                         // fresh output objects that went through a publisher (they carry a handler context)
 	shared := message.NewMessage("shared", []byte("shared")) // one object returned by several handlers one after the other
 	shape := map[string]string{}
+	pre := map[string]string{} // messages that arrive settled
 	consumed := map[string]*message.Message{}
 	returned := map[string][]*message.Message{}
 	snap := map[*message.Message]string{}
@@ -155,6 +168,10 @@ func c08Run(r *tr.Run, hs []c08Handler, rng *rand.Rand) {
 				if want[i] != msgs[i] || snap[msgs[i]] != snapshot(msgs[i]) {
 					intact = false
 				}
+				if seen, ok := decSeen[msgs[i]]; ok && fmt.Sprint(seen) != fmt.Sprint(ctxOf(msgs[i].Context())) {
+					intact = false // the decorators in front of the publisher saw other handler values than the publisher
+				}
+				delete(decSeen, msgs[i])
 				// a fresh output still carries the context the handler gave it (underneath what the router added)
 				if v := msgs[i].Context().Value(c08OutKey{}); strings.Contains(msgs[i].UUID, ".o") && msgs[i] != shared && v != msgs[i].UUID {
 					intact = false
@@ -255,7 +272,15 @@ func c08Run(r *tr.Run, hs []c08Handler, rng *rand.Rand) {
 	if r.ID%2 == 0 {
 		// publisher decorators in front of every handler's publisher: the names in the context are still those of the publisher
 		// the handler was registered with
-		router.AddPublisherDecorators(func(p message.Publisher) (message.Publisher, error) { return c08PassPub{p}, nil })
+		router.AddPublisherDecorators(func(p message.Publisher) (message.Publisher, error) {
+			return c08PassPub{p, func(msgs []*message.Message) {
+				mu.Lock()
+				defer mu.Unlock()
+				for _, o := range msgs {
+					decSeen[o] = ctxOf(o.Context())
+				}
+			}}, nil
+		})
 	}
 	for _, h := range hs {
 		var handle *message.Handler
@@ -311,6 +336,9 @@ func c08Run(r *tr.Run, hs []c08Handler, rng *rand.Rand) {
 						sh = "mw"
 					}
 					shape[m] = sh
+					if rng.Intn(6) == 0 && sh != "earlyack" {
+						pre[m] = []string{"ack", "nack"}[rng.Intn(2)]
+					}
 					consumed[m] = message.NewMessage(prefix+m, []byte("in"))
 					{
 						// the delivery's context can be ended by whoever settles the message (the "earlyack" handlers do)
@@ -340,6 +368,15 @@ func c08Run(r *tr.Run, hs []c08Handler, rng *rand.Rand) {
 			defer wg.Done()
 			for _, e := range list {
 				msg := consumed[e.m]
+				if k := pre[e.m]; k != "" {
+					// whoever shares the message with the source settled it already: it is routed like any other
+					r.Emit("preset", "m", e.m, "kind", k)
+					if k == "ack" {
+						msg.Ack()
+					} else {
+						msg.Nack()
+					}
+				}
 				go func(e em) {
 					select {
 					case <-msg.Acked():
